@@ -286,6 +286,9 @@ META = (META[0] + ' FOREIGNSIZE (a raw size store through another object or an a
 META = (META[0] + ' TRAITREF (no property trait such as is_trivially_destructible is asked of decltype(*it), a reference type for which it is vacuously true; controls in fixtures/extra10_pos.hpp).', META[1])
 
 
+META = (META[0] + ' SLOTS-G (slots gained by a raw size store are constructed on that path, not merely assigned to).', META[1])
+
+
 def run(chk, tier):
     db = D.load("checks")
     sigs = L.slot_signatures(db)
@@ -334,7 +337,9 @@ def run(chk, tier):
         chk.analysis_broken("SRC: only %d copying members of slot-based owners found (floor 2)" % nsrc)
     # SLOTS-D / SLOTS-C: the destroyed range is the removed tail; construction happens at the first free slot
     slots.check(chk, D.load("plain"), ["static_vector", "inplace_vector"],
-                lambda r: ("trivial_storage" not in r) or ("non_trivial" in r), only=("D", "C"))
+                lambda r: ("trivial_storage" not in r) or ("non_trivial" in r), only=("D", "C", "G"))
+    if chk.rule_instances.get("SLOTS-G", 0) < 1:
+        chk.analysis_broken("SLOTS-G: no growing size store found in the vectors (floor 1)")
     if chk.rule_instances.get("SLOTS-D", 0) < 2 or chk.rule_instances.get("SLOTS-C", 0) < 1:
         chk.analysis_broken("SLOTS: only %d shrinking / %d constructing size stores found in the vectors (floors 2 / 1)" % (
             chk.rule_instances.get("SLOTS-D", 0), chk.rule_instances.get("SLOTS-C", 0)))
